@@ -45,7 +45,7 @@ def keys(src):
     return json.loads(r.stdout.strip().splitlines()[-1])
 base = keys(None)
 extra_path = os.path.join(HERE, 'mutants', 'catalogue_extra.json')
-ORIGIN = 'sub-agent seeded change' + (' (round 2)' if PREFIX else '')
+ORIGIN = 'sub-agent seeded change' + ((' (round %s)' % PREFIX.strip('r-')) if PREFIX else '')
 extra = [e for e in json.load(open(extra_path)) if e.get('origin') != ORIGIN]
 for vf in sorted(glob.glob(VERIFIED + '/*/*/verify.json')):
     v = json.load(open(vf))
